@@ -122,6 +122,25 @@ def read_hashes(exp, W, where, extroot):
         n = [x for x in first if first[x] != third[x]][0]
         raise Violation("hash-changes-after-memoization-reset",
                         "%s %s: %s, after reset %s" % (where, G.node_id(W, n), first[n], third[n]))
+    # validating the experiment resolves pathless executables to absolute paths in the live configuration
+    # (ComponentSpecification.checkExecutable, what validateExperiment(checkExecutables=True) runs): the same work,
+    # the same hashes - they must not depend on whether / on which host the instance was validated
+    checked = set()
+    for n, sp in specs.items():
+        try:
+            sp.checkExecutable()
+            checked.add(n)
+        except Exception:       # noqa - executables that do not exist here (run.sh), non-local backends
+            pass
+    if checked:
+        for sp in specs.values():
+            sp.memoization_reset()
+        fourth = {n: (sp.memoization_hash, sp.memoization_hash_fuzzy) for n, sp in specs.items()}
+        if first != fourth:
+            n = [x for x in first if first[x] != fourth[x]][0]
+            raise Violation("hash-changes-after-executable-check",
+                            "%s %s: %s, after checkExecutable() of %s: %s" % (
+                                where, G.node_id(W, n), first[n], sorted(G.node_id(W, x) for x in checked), fourth[n]))
     return first
 
 
